@@ -7,6 +7,10 @@ ALL = ["C%02d" % i for i in range(1, 21)]
 
 # id -> (technique, level text, level note, design section)
 CLAIMED = {
+ "C15": ("stateful property-based testing of channel life cycles through the node's real tracker (regtest blocks with funding, double-spend, mutual / unilateral close, sweeps), forget requests, heartbeats, reorgs around the burial depth, restarts, id-reuse attempts; oracle = independent chain/forget model kept by the harness (a ready channel may vanish from memory and store only if forget was acknowledged and a terminal event is buried >= 100 on the model's best chain; ids at or below a forgotten id are never created again)",
+         "Held-on-N-histories exploration (burial depths 98..102 hit by construction).",
+         "Over-retention is never judged; received HTLCs not required in the swept rule (weaker than the signer's, hence sound); compact block delivery only.",
+         "C15"),
  "C20": ("randomised concurrency testing: proptest-generated programs of 2-3 threads with fixed-argument requests, thread schedules explored with shuttle (random and PCT schedulers, fixed seeds) on vls-core built with --cfg vls_verif; oracle = no deadlock/panic in any explored schedule and replies + final state equal to those of some sequential interleaving on a fresh world (linearizability witness search)",
          "Exploration of sampled schedules (60 per program quick, 400 thorough), not enumeration; two genuine lock-order inversions were found and repaired by fix: commits.",
          "The hook swaps std::sync for shuttle::sync in vls-core's prelude; behaviour outside those primitives is not modelled.",
